@@ -3516,7 +3516,7 @@ impl<'source> Parser<'source> {
         }
 
         if catch_blocks.is_empty() {
-            return self.error(SyntaxError::ExpectedCatch);
+            return self.consume_token_and_error(SyntaxError::ExpectedCatch);
         }
 
         let finally_block = match self.peek_token_with_context(&outer_context) {
